@@ -212,6 +212,13 @@ func (b *BoxLayout) Draw() {
 
 // Size returns the preferred size in character cells (width, height).
 func (b *BoxLayout) Size() (int, int) {
+	// The preferred size is only computed by layout; if our content
+	// changed since then (a child changed, the orientation flipped, or we
+	// were just given a view), what we have is stale.  A parent BoxLayout
+	// asks for our size while laying itself out, before we are drawn.
+	if b.changed {
+		b.layout()
+	}
 	return b.width, b.height
 }
 
